@@ -566,13 +566,13 @@ def check(ctx):
     ctx.floor("R9", "error-flag valuations", n_es, 8)
     # ---- R8 heater members are total: an out-of-label unit byte reads 'Unknown' (R4) and every read-only member of the
     # heater, built by its own constructor on a model spa, must still evaluate (with / without the flag items)
-    ctx.rule("R8", "heater totality: with the unit item reading 'C', 'F' or 'Unknown' (any out-of-label byte) and every presence pattern of the heating / cooling flag items, every read-only member of GeckoWaterHeater evaluates without raising")
+    ctx.rule("R8", "heater totality: with the unit item reading 'C', 'F' or 'Unknown' (any out-of-label byte) and every presence pattern AND every value of the heating / cooling flag items (both set included: two independent bits of a block), every read-only member of GeckoWaterHeater evaluates without raising")
     from .c14 import build_heater
     hcls = repo.cls("GeckoWaterHeater")
     hmembers = [m for k in repo.mro(hcls) for m in k.methods.values() if (m.is_property or m.name in ("__str__", "__repr__")) and not m.name.startswith("_") or m.name in ("__str__",)]
     seen_m, n_h = set(), 0
     for u in ("C", "F", "Unknown"):
-        for flags in ((None, None), (True, None), (None, False), (False, True)):
+        for flags in ((None, None), (True, None), (False, None), (None, False), (None, True), (False, True), (True, False), (False, False), (True, True)):
             it3 = Interp(repo, max_depth=12)
             try:
                 heater, _a, _r = build_heater(repo, it3, units=u, heating=flags[0], cooling=flags[1])
@@ -601,6 +601,6 @@ def check(ctx):
                     seen_m.add((m.name, u))
                     ctx.ob("R8", f"GeckoWaterHeater.{m.name}::unit={u}::flags={flags}", ok,
                            f"GeckoWaterHeater.{m.name} raises {why} when the unit item reads {u!r} (heating flag {flags[0]}, cooling flag {flags[1]}): a status block with an out-of-label unit byte makes a read-only member fail", m.loc)
-    ctx.floor("R8", "heater member evaluations", n_h, 100)
+    ctx.floor("R8", "heater member evaluations", n_h, 250)
     ctx.assume("a facade is constructed for every combination the spa can report (the FILES reply names cfg and log versions independently)")
     ctx.note("NOT decided: exception freedom of every member for arbitrary 1024-byte block contents beyond the classes above (label lookups, reminder types, watercare byte, missing items).")
